@@ -179,6 +179,29 @@ CLAIMED['C16'] = dict(
          'simultaneous corruptions, larger files.',
     ref='4/C16', technique=TECH + '; symbolic crash point / fault value')
 
+CLAIMED['C10'] = dict(
+    text='Orchestration level: the real process_samples_table / process_beads_table / '
+         'add_samples_stats / generate_histograms_table run on a small pandas stand-in with every '
+         'library step a free term constructor; units strings come from a 13-entry table (case '
+         'variants, padding, unknown) by symbolic index, data type, event count, instrument and '
+         'calibration presence are symbolic; the result term must equal the documented hand '
+         'composition, which then holds for every interpretation of the steps.',
+    note='The numeric content of each step is covered by C03/C05/C06/C08/C12/C19; pandas/openpyxl '
+         'I/O and plots are outside; "counts sum to the events within the edges" is a property of '
+         'np.histogram and is outside. Counterexamples are replayed on the real library with '
+         'generated FCS files and real pandas.',
+    ref='4/C10', technique='free-term symbolic execution of the orchestrator (CrossHair)')
+CLAIMED['C11'] = dict(
+    text='Same free-term execution with fault injection as solver choices: each row of a 3-row '
+         'sample table (2-row bead table) gets a symbolic fault kind among the ten documented '
+         'ones; the call must return, keys follow table order, faulty rows map to ExcelUIException '
+         'and ERROR notes with empty statistics, healthy rows equal their single-row results. '
+         'Found and led to the repair of the batch-aborting ve.message defect.',
+    note='Trusted: pandas stand-in, term stubs (the density gate stub raises the library\'s '
+         'ValueError for a fraction outside [0,1]). Counterexamples replayed on the real library '
+         'with generated files.',
+    ref='4/C11', technique='free-term symbolic execution with symbolic fault vectors (CrossHair)')
+
 NA = {
     'C15': 'whole-program run through compiled third-party code and the file system (openpyxl/'
            'pandas xlsx I/O, matplotlib rendering): cannot be executed symbolically; stubbing it '
